@@ -242,6 +242,8 @@ def worker(part, jobs):
                 xyz_read(part, job[1])
             elif job[0] == "multi":
                 multi_sdf(part, job[1], job[2])
+            elif job[0] == "bigsdf":
+                big_sdf(part, job[1])
             elif job[0] == "prov":
                 provenance_roundtrip(part, *job[1:], tmpdir=tmpdir)
     finally:
@@ -348,6 +350,79 @@ def multi_sdf(part, k, source):
     part.state(("multi", k, source))
 
 
+def big_sdf(part, d):
+    """
+    a multi-record SDF FILE of ~140 kB whose record terminators "$$$$" are placed so that one of them begins exactly `d` characters
+    before each power-of-two offset 4096 .. 131072 (where a reader that streams the file in blocks would cut it): Molecule.load returns
+    every record, in order, with its own elements and coordinates
+    """
+    from chmpy.core.molecule import Molecule
+
+    targets = [2 ** k for k in range(12, 18)]
+    text = ""
+    mols = []
+    r = 0
+    def record(n, r, pad=0):
+        zs = element_list(n, 3 + 7 * r)
+        pos = positions(n, "generic", False) + 0.001 * r
+        return zs, pos, sdfcols.write_record([ELEMENTS[z - 1][0] for z in zs], pos, title="r%d" % r + "x" * pad)
+
+    hit = []
+    while targets:
+        n = 1 + (r * 5) % 4
+        want_start = targets[0] - d                       # offset at which this record's "$$$$" should begin
+        zs, pos, rec = record(n, r)
+        gap = want_start - (len(text) + len(rec) - 5)     # "$$$$\n" are the last five characters of a record
+        if gap < 0:
+            targets.pop(0)                                 # (only if a single record were longer than the distance: does not happen)
+            continue
+        if gap <= 600:
+            # close enough: lengthen THIS record by whole atom lines and pad its title (<= 70 characters) so that it ends on the mark
+            for k in range(0, 12):
+                zs, pos, rec = record(n + k, r)
+                g2 = want_start - (len(text) + len(rec) - 5)
+                if 0 <= g2 <= 70:
+                    zs, pos, rec = record(n + k, r, pad=g2)
+                    break
+            if len(text) + len(rec) - 5 == want_start:
+                hit.append(targets[0])
+            targets.pop(0)
+        text += rec
+        mols.append((zs, pos))
+        r += 1
+    if len(hit) < 5:
+        part.fail("harness:big-sdf-alignment", "only %d of 6 block boundaries could be aligned" % len(hit), {"kind": "bigsdf", "d": d})
+    for extra in range(3):
+        zs = element_list(2, 50 + extra)
+        pos = positions(2, "generic", False)
+        text += sdfcols.write_record([ELEMENTS[z - 1][0] for z in zs], pos, title="tail%d" % extra)
+        mols.append((zs, pos))
+    case = {"kind": "bigsdf", "d": d}
+    part.ev()
+    part.tr()
+    part.trace()
+    tmp = tempfile.mkdtemp(prefix="c16b_", dir="/dev/shm" if os.path.isdir("/dev/shm") else None)
+    try:
+        pth = os.path.join(tmp, "big.sdf")
+        open(pth, "w").write(text)
+        got = Molecule.load(pth)
+        got = got if isinstance(got, list) else [got]
+    except Exception as e:
+        part.fail("big-sdf:raise", "Molecule.load of a %d-record, %d-byte SDF file raised %s: %s" % (len(mols), len(text), type(e).__name__, str(e)[:80]), case)
+        return
+    finally:
+        shutil.rmtree(tmp, ignore_errors=True)
+    if len(got) != len(mols):
+        part.fail("big-sdf:count", "Molecule.load of a %d-record, %d-byte SDF file (a terminator %d characters before each of the offsets 4096..131072) yields %d molecules" % (len(mols), len(text), d, len(got)), case)
+        return
+    for i, (b, (zs, pos)) in enumerate(zip(got, mols)):
+        if [int(z) for z in b.atomic_numbers] != zs or np.abs(np.asarray(b.positions) - pos).max() > 5.0e-5 * (1 + 1e-6):
+            part.fail("big-sdf:content", "record %d of %d of a large SDF file read back with other elements / coordinates" % (i, len(mols)), case)
+            return
+    part.outcome(("bigsdf", d))
+    part.state(("bigsdf", d))
+
+
 def run(ctx):
     from mc.core import chunked
 
@@ -372,6 +447,8 @@ def run(ctx):
     for k in (1, 2, 3):
         for source in ("writer", "reference"):
             jobs.append(("multi", k, source))
+    for d in range(0, 6):
+        jobs.append(("bigsdf", d))
     for fmt in ("xyz", "sdf"):
         for n in (3, 12):
             for prov in ("xyz", "sdf", "sdf-keep-text"):
@@ -396,6 +473,8 @@ def replay(ctx, case):
             roundtrip(ctx, case["fmt"], case["n"], case["offset"], case["coords"], case["bonded"], case["route"], d)
         finally:
             shutil.rmtree(d, ignore_errors=True)
+    elif k == "bigsdf":
+        big_sdf(ctx, case["d"])
     elif k == "xyzread":
         xyz_read(ctx, case["z"])
     elif k == "provenance":
